@@ -477,7 +477,10 @@ def identity_closure(logic):
     w = 0 if logic.Meta.modal else None
     A1, A2, B1, D3 = Constant(0, 1), Constant(0, 2), Constant(1, 1), Constant(3, 3)
     res = {}
-    forms = [('selfIdNeg', [~I(CA, CA), ~I(D3, D3), ~I(A1, A1)], all), ('nonExist', [~E(CA), ~E(D3)], all),
+    # the two sides of a self-identity are built by SEPARATE constructor calls: equal, and (when the item cache is off or
+    # has evicted the entry) not the same object
+    forms = [('selfIdNeg', [~I(Constant(0, 0), Constant(0, 0)), ~I(Constant(3, 3), Constant(3, 3)), ~I(Constant(0, 1), Constant(0, 1))], all),
+             ('nonExist', [~E(CA), ~E(D3)], all),
              ('selfId', [I(CA, CA), I(D3, D3)], any),
              ('distinctNeg', [~I(CA, CB), ~I(CB, CA), ~I(CA, A1), ~I(A1, CA), ~I(A1, A2), ~I(A1, B1), ~I(CA, D3)], any),
              ('exist', [E(CA), E(A1), E(D3)], any)]
